@@ -397,7 +397,7 @@ theorem idleStep_inv {r : Resp} {c : Conn} (hw : WF r) (h : Inv r c) (app : AppA
 theorem handleIdle_inv {r : Resp} {c : Conn} (hw : WF r) (h : Inv r c) (app : AppAns) (alloc : Bool) :
     Inv r (handleIdle r c app alloc) := by
   unfold handleIdle
-  exact idleStep_inv hw (idleStep_inv hw (idleStep_inv hw (idleStep_inv hw h app alloc) app alloc) app alloc) app alloc
+  exact idleClosed_inv (idleStep_inv hw (idleStep_inv hw (idleStep_inv hw (idleStep_inv hw h app alloc) app alloc) app alloc) app alloc)
 
 theorem handleWrite_inv {r : Resp} {c : Conn} (hw : WF r) (h : Inv r c) (s1 s2 : SockRes) (h2 : s2.Legal)
     (app : AppAns) (alloc : Bool) : Inv r (handleWrite r c s1 s2 app alloc) := by
